@@ -13,6 +13,12 @@
                                                   identity to rounding accuracy"):
                                                   mdet/tdet/minv → some | none, tinv → some(<shape>) | none,
                                                   mcheck/tcheck → some(approx-id) | none
+    @ f64b <shape> <hex bit patterns>             f64 given bit by bit (±0.0, ±inf, NaN, subnormals …).  The
+                                                  questions mdbits/tdbits/mibits/tibits are decided inside the
+                                                  harness (implementation against the documented operation order
+                                                  evaluated there, to_bits, NaNs identified); the only
+                                                  specification-level answer is `agree`, which is what this
+                                                  driver says — no float is modelled here
     mdet via=…      linear_algebra::determinant / Matrix::determinant       → some(v) | none
     minv via=…      linear_algebra::inverse / Matrix::inverse               → some(RxC;e,…) | none
     tdet via=…      determinant_tensor / Tensor / TensorView ::determinant  → some(v) | none
@@ -41,6 +47,8 @@ structure State where
   elems : Elems := .fp []
   /-- float case: `elems` holds the exact integer base, answers are specification-level only -/
   approx : Bool := false
+  /-- f64 by bit patterns: questions are decided in the harness -/
+  bits : Bool := false
 
 def init : State := {}
 
@@ -135,6 +143,8 @@ def step (s : State) (toks : List String) : State × String :=
         match ents.mapM parseRat with
         | some l => ({ names := (a, b), rows := r, cols := c, elems := .rat l }, "ok")
         | none => (s, "bad-op")
+      else if ty = "f64b" then
+        ({ names := (a, b), rows := r, cols := c, elems := .rat [], bits := true }, "ok")
       else if ty = "f64" || ty = "f32" then
         match ents.mapM parseRat with
         | some l => ({ names := (a, b), rows := r, cols := c, elems := .rat l, approx := true }, "ok")
@@ -142,6 +152,9 @@ def step (s : State) (toks : List String) : State × String :=
       else (s, "bad-op")
     | _ => (s, "bad-op")
   | op :: _ =>
+    if s.bits then
+      (s, if op = "mdbits" || op = "tdbits" || op = "mibits" || op = "tibits" then "agree" else "bad-op")
+    else
     match s.elems with
     | .fp l => (s, answer (fun (x : Fp) => toString x) s.names s.rows s.cols l op)
     | .rat l =>
